@@ -502,6 +502,32 @@ pub fn scenarios(tier: &str) -> Vec<PyScenario> {
             }
         }
     }
+    // RRT*: a node at a distance from the new state that EQUALS the rewiring radius in double precision,
+    // for radii that single precision cannot represent (0.3, 0.7, 1.1): the neighbour test `d < r` is decided
+    // by the exact double the user passed. Goal bias 1, goal samples q1 (not in the goal) then q2 (in it).
+    for r in [0.3f64, 0.7, 1.1] {
+        let q1 = V::Rv(vec![r - 0.1, 5.1]);
+        let q2 = V::Rv(vec![r, 5.0]);
+        out.push(PyScenario {
+            id: format!("RealVector/RRTStar/radius-knife-edge/r{r}"),
+            kit: "RealVector",
+            spec: Spec::Rv { dim: 2, bounds: Some(vec![(0.0, 10.0), (0.0, 10.0)]), frac: None },
+            frac: None,
+            start: V::Rv(vec![0.0, 5.0]),
+            goal_preds: vec![Pred::SqDistLe { idx: vec![0, 1], c: vec![r, 5.0], r2: 0.0025 }],
+            goal_samples: vec![q1, q2],
+            obstacles: vec![],
+            planner: "RRTStar",
+            step: 2.0,
+            bias: 1.0,
+            radius: r,
+            prm_timeout: 0.0,
+            seed: 1,
+            timeout_secs: 0.0095,
+            history: vec!["setup", "solve"],
+            obstacles2: vec![],
+        });
+    }
     out
 }
 
